@@ -305,7 +305,7 @@ func (g *run) histSpec(b0 string, ops []hop) {
 			}
 			if effOpaque(next) != effOpaque(fresh) || (ff1 != ff2 && !(stickyNow && ff1 && !ff2 && g.known["chain-sticky-empty-fragment"].Key != "")) {
 				g.rep.Add(vh.Case{Kind: "disagreement", Op: op, Go: fmt.Sprintf("opaque=%v forceFragment=%v", effOpaque(next), ff1),
-					Model: fmt.Sprintf("opaque=%v forceFragment=%v", effOpaque(fresh), ff2),
+					Model:  fmt.Sprintf("opaque=%v forceFragment=%v", effOpaque(fresh), ff2),
 					Detail: hist + ": private state of the history result differs from ParseIRI of its String() " + fmt.Sprintf("%q", want)})
 			}
 		}
